@@ -481,3 +481,193 @@ Proof.
   destruct (infer_keys C reg fo fi D forced T Hinit H) as [Hwf _].
   eapply reach_sound; eauto. eapply twf_phase_indep; eauto.
 Qed.
+
+(* ================================================================== built-ins *)
+
+(* C09, third part, for the repaired isnan *)
+Theorem builtins_sound : forall C f s a cs ks r,
+  isnan_any C = true -> rlookup builtin_reg f = Some s ->
+  Forall2 arg_rel cs a -> result_kinds true s a = Some ks ->
+  In r (cresult C s cs) -> hks r ks.
+Proof.
+  intros C f s a cs ks r Hia _ HF Hk Hin. eapply cresult_sound; eauto.
+  unfold sig_ok. destruct s; try reflexivity. rewrite Hia. reflexivity.
+Qed.
+
+(* ... and its refutation for the elementwise isnan: declared Boolean, returns an array *)
+Lemma builtins_refuted_isnan : forall C,
+  isnan_any C = false ->
+  rlookup builtin_reg "<builtin>isnan" = Some FIsNan /\
+  Forall2 arg_rel [CArr true] [Some (KArray true)] /\
+  result_kinds true FIsNan [Some (KArray true)] = Some [KBool] /\
+  In [CArr true] (cresult C FIsNan [CArr true]) /\
+  ~ hks [CArr true] [KBool].
+Proof.
+  intros C Hia. split; [reflexivity|]. split.
+  - constructor; [|constructor]. exists (KArray true). split; reflexivity.
+  - split; [reflexivity|]. split.
+    + simpl. rewrite Hia. left. reflexivity.
+    + intros H. inversion H; subst. simpl in *. discriminate.
+Qed.
+
+(* ================================================================== the interpreter's persistent names are global names *)
+
+Lemma existsb_incl : forall (f : string -> bool) (l1 l2 : list string),
+  forallb (fun a => existsb (String.eqb a) l2) l1 = true ->
+  existsb f l1 = true -> existsb f l2 = true.
+Proof.
+  intros f l1 l2 Hinc H. apply existsb_exists in H. destruct H as [a [Ha Hf]].
+  rewrite forallb_forall in Hinc. specialize (Hinc a Ha). apply existsb_exists in Hinc.
+  destruct Hinc as [b [Hb E]]. apply String.eqb_eq in E. subst b.
+  apply existsb_exists. eauto.
+Qed.
+
+Lemma keep_of_state : forall C exact prefixes,
+  forallb (fun a => existsb (String.eqb a) (st_exact C)) exact = true ->
+  forallb (fun a => existsb (String.eqb a) (st_prefixes C)) prefixes = true ->
+  forall x, keep_of exact prefixes x = true -> is_state C x = true.
+Proof.
+  intros C exact prefixes H1 H2 x H. unfold keep_of in H. unfold is_state.
+  apply orb_prop in H. apply orb_true_intro. destruct H as [H|H].
+  - left. eapply existsb_incl; eauto.
+  - right. eapply existsb_incl; eauto.
+Qed.
+
+(* ================================================================== the unrestricted statement is false for every shape *)
+
+(* x <- <t> > 1 and x <- <t> + 1 in one phase: unify raises, the message is printed and ignored, x keeps
+   the kind of the statement visited first (Scalar); running the other statement stores a flag *)
+Definition wit_mixed : program :=
+  [("ph", [SAssign "x" false (ECmp true (EVar "<t>") (EConst CInt)) [];
+           SAssign "x" false (ESum [EVar "<t>"; EConst CInt]) []])].
+
+Definition keep_std : string -> bool := keep_of ["<t>"; "<dt>"] ["<state>"; "<p>"].
+
+Lemma store_ok_t : forall T ph,
+  lookup T ph "<t>" = Some (Some (KScalar true)) -> store_ok T ph [("<t>", CReal)].
+Proof.
+  intros T ph Hl x c Hx.
+  change (alookup [("<t>", CReal)] x) with (if String.eqb "<t>" x then Some CReal else None) in Hx.
+  destruct (String.eqb "<t>" x) eqn:E; [|discriminate].
+  apply String.eqb_eq in E. subst x. inversion Hx; subst. exists (KScalar true). split; [exact Hl | reflexivity].
+Qed.
+
+Lemma soundness_full_refuted : forall pw nm ia,
+  let C := cfg_of pw nm ia in
+  exists T st,
+    infer C builtin_reg (outer_fuel wit_mixed) (inner_fuel wit_mixed) wit_mixed [] = Ok T /\
+    store_ok T "ph" [("<t>", CReal)] /\
+    creach C builtin_reg wit_mixed keep_std "ph" [("<t>", CReal)] "ph" st /\
+    ~ store_ok T "ph" st.
+Proof.
+  intros pw nm ia C.
+  pose proof (fun T => store_ok_t T "ph") as H0.
+  destruct pw, nm, ia;
+    (eexists; exists (cset [("<t>", CReal)] "x" CBool);
+     split; [vm_compute; reflexivity|];
+     split; [apply H0; reflexivity|];
+     split;
+     [eapply cr_stmt with (s := SAssign "x" false (ECmp true (EVar "<t>") (EConst CInt)) []);
+      [apply cr_refl | left; reflexivity | left; reflexivity | reflexivity | right; left; reflexivity]
+     | intros Hbad; destruct (Hbad "x" CBool eq_refl) as [k [Hl Hh]];
+       vm_compute in Hl; inversion Hl; subst k; discriminate Hh]).
+Qed.
+
+(* with the unchanged `set` even a program that passes every side condition is unsound: the sum is
+   inferred while `a` is still unknown and never revisited *)
+Definition wit_stale : program :=
+  [("ph", [SCall ["a"] "<builtin>array" [EConst CInt] [];
+           SAssign "x" false (ESum [EConst CInt; EVar "a"]) []])].
+
+Lemma soundness_refuted_stale : forall pw ia,
+  let C := cfg_of pw false ia in
+  exists T st,
+    infer C builtin_reg (outer_fuel wit_stale) (inner_fuel wit_stale) wit_stale [] = Ok T /\
+    sconf T = 0 /\ sides C builtin_reg wit_stale T = true /\
+    store_ok T "ph" [("<t>", CReal)] /\
+    creach C builtin_reg wit_stale keep_std "ph" [("<t>", CReal)] "ph" st /\
+    ~ store_ok T "ph" st.
+Proof.
+  intros pw ia C.
+  pose proof (fun T => store_ok_t T "ph") as H0.
+  destruct pw, ia;
+    (eexists; exists (cset (cset [("<t>", CReal)] "a" (CArr true)) "x" (CArr true));
+     split; [vm_compute; reflexivity|];
+     split; [reflexivity|];
+     split; [vm_compute; reflexivity|];
+     split; [apply H0; reflexivity|];
+     split;
+     [eapply cr_stmt with (s := SAssign "x" false (ESum [EConst CInt; EVar "a"]) []);
+      [eapply cr_stmt with (s := SCall ["a"] "<builtin>array" [EConst CInt] []);
+       [apply cr_refl | left; reflexivity | left; reflexivity | reflexivity | right; vm_compute; left; reflexivity]
+      | left; reflexivity | right; left; reflexivity | reflexivity | right; vm_compute; left; reflexivity]
+     | intros Hbad; destruct (Hbad "x" (CArr true) eq_refl) as [k [Hl Hh]];
+       vm_compute in Hl; inversion Hl; subst k; discriminate Hh]).
+Qed.
+
+(* ================================================================== non-vacuity *)
+
+Definition ex_prog : program :=
+  [("ph", [SCall ["a"] "<builtin>array" [EConst CInt] [];
+           SAssign "x" false (ESum [EConst CInt; EVar "a"]) [];
+           SAssign "y" false (EPow (EVar "<t>") (EConst CInt)) [];
+           SAssign "n" false (ECall "<builtin>norm_2" [EVar "a"] []) ["i"];
+           SAssign "b" false (ECmp true (EVar "n") (EConst CReal)) [];
+           SAssign "a" true (EVar "n") ["i"];
+           SCall ["<state>y"] "<func>f" [EVar "<t>"; EVar "<state>y"] []]);
+   ("q", [SAssign "<p>s" false (EProd [EVar "<dt>"; EConst CComplex]) []])].
+
+Definition ex_reg : registry := builtin_reg ++ [("<func>f", FRhs "y" ["y"] ["y"])].
+Definition ex_cfg : cfg := cfg_of true true true.
+
+(* the hypotheses of every_assigned and of soundness hold for a program with calls, loops, a power, an
+   element store, two phases and persistent variables; the sum is an Array although it is visited first *)
+Example ex_hypotheses :
+  exists T, infer ex_cfg ex_reg (outer_fuel ex_prog) (inner_fuel ex_prog) ex_prog [("ph", "i", KInt)] = Ok T /\
+            wf_program ex_prog = true /\ sconf T = 0 /\ sides ex_cfg ex_reg ex_prog T = true /\
+            strict ex_cfg ex_reg ex_prog T = true /\
+            lookup T "ph" "x" = Some (Some (KArray true)) /\
+            lookup T "q" "<p>s" = Some (Some (KScalar false)) /\
+            lookup T "q" "<state>y" = Some (Some (KUser "y")).
+Proof. eexists. split; [vm_compute; reflexivity|]. repeat split; vm_compute; reflexivity. Qed.
+
+Example ex_reach :
+  exists st, creach ex_cfg ex_reg ex_prog keep_std "ph"
+                    [("<t>", CReal); ("<dt>", CInt); ("<state>y", CUser "y")] "q" st /\
+             alookup st "<p>s" = Some CComplex /\ alookup st "<state>y" = Some (CUser "y") /\
+             alookup st "a" = None.
+Proof.
+  eexists. split.
+  - eapply cr_stmt with (ph := "q") (s := SAssign "<p>s" false (EProd [EVar "<dt>"; EConst CComplex]) []);
+      [ eapply cr_phase with (ph := "ph");
+        eapply cr_stmt with (s := SCall ["a"] "<builtin>array" [EConst CInt] []);
+        [ eapply cr_stmt with (s := SCall ["<state>y"] "<func>f" [EVar "<t>"; EVar "<state>y"] []);
+          [ apply cr_refl | left; reflexivity | do 6 right; left; reflexivity | reflexivity
+            | right; vm_compute; left; reflexivity ]
+        | left; reflexivity | left; reflexivity | reflexivity | right; vm_compute; left; reflexivity ]
+      | right; left; reflexivity | left; reflexivity | reflexivity | right; vm_compute; left; reflexivity ].
+  - vm_compute. repeat split; reflexivity.
+Qed.
+
+Example ex_builtins :
+  Forall2 arg_rel [CArr false; CArr true; CInt; CReal] [Some (KArray false); Some (KArray true); Some (KScalar true); Some (KScalar true)] /\
+  result_kinds true FMatMul [Some (KArray false); Some (KArray true); Some (KScalar true); Some (KScalar true)]
+    = Some [KArray false] /\
+  In [CArr false] (cresult ex_cfg FMatMul [CArr false; CArr true; CInt; CReal]).
+Proof.
+  split; [|split; [reflexivity | left; reflexivity]].
+  repeat constructor; eexists; split; reflexivity.
+Qed.
+
+(* the second part of C09 without side conditions, as a statement about one configuration *)
+Definition full_soundness (C : cfg) (keep : string -> bool) : Prop :=
+  forall reg fo fi D forced T,
+    infer C reg fo fi D forced = Ok T ->
+    forall ph0 st0 ph st,
+      store_ok T ph0 st0 -> creach C reg D keep ph0 st0 ph st -> store_ok T ph st.
+
+Lemma full_soundness_false : forall pw nm ia, ~ full_soundness (cfg_of pw nm ia) keep_std.
+Proof.
+  intros pw nm ia H. destruct (soundness_full_refuted pw nm ia) as [T [st [Hi [H0 [Hr Hbad]]]]].
+  apply Hbad. eapply H; eauto.
+Qed.
